@@ -220,6 +220,24 @@ def check_interactive(ctx, spec, g, deps, ids, case):
     nbs, ebs = r["meta"]["nodesByState"], r["meta"]["edgesByState"]
     if set(nbs) != set(ebs):
         ctx.violation("C20:state-keys-differ", f"nodesByState has {sorted(set(nbs) - set(ebs))[:3]} extra, edgesByState has {sorted(set(ebs) - set(nbs))[:3]} extra", case)
+    # the set of states itself, enumerated independently from the program: every assignment expanded/collapsed
+    # of the containers in which nothing is expanded inside a collapsed container, x both output modes
+    import itertools
+
+    cont = sorted(i for i, (ns, _) in ids.items() if ns["k"] == "sub")
+    if len(cont) <= 10:
+        expected_keys = set()
+        for bits in itertools.product([False, True], repeat=len(cont)):
+            st = dict(zip(cont, bits))
+            if any(st[c_] and not all(st[a] for a in ancestors_or_self(c_)[:-1]) for c_ in cont):
+                continue
+            for sp in (0, 1):
+                body = ",".join(f"{c_}:{int(st[c_])}" for c_ in cont)
+                expected_keys.add((body + "|" if body else "") + f"sep:{sp}")
+        ctx.obs["state_sets_checked"] += 1
+        if set(nbs) != expected_keys:
+            missing, extra = sorted(expected_keys - set(nbs)), sorted(set(nbs) - expected_keys)
+            ctx.violation("C20:expansion-states-differ", f"{len(cont)} containers: valid states without diagram data {missing[:3]} ({len(missing)}), diagram data under keys that are no valid state {extra[:3]} ({len(extra)})", case)
     keys = sorted(set(nbs) & set(ebs))
     if ctx.tier == "quick" and len(keys) > 24:
         keys = ctx.rng.sample(keys, 24)
